@@ -518,7 +518,8 @@ Section Markdown.
   Definition md_advance (bs : list N) (tb tc rs : nat) : res (nat * nat) :=
     if tb <? rs then do s <- str_slice bs tb rs; Ok (rs, tc + count_chars s) else Ok (tb, tc).
 
-  (* the guard of 8b26ba4: the events that make a token covering characters *)
+  (* the guard of 8b26ba4 / b736ef8: the events that make a token covering characters (the list is pinned by
+     Tables_masks.md_guarded_events, regenerated from markdown.rs) *)
   Definition md_is_leaf (ev : md_event) : bool :=
     match ev with
     | ESoftBreak | EHardBreak | ECodeLike _ | EText _ _ | EHtml _ => true
@@ -537,9 +538,10 @@ Section Markdown.
     match evs with
     | [] => Ok []
     | (ev, rs) :: rest =>
+        let behind := rs <? tb in                                    (* let behind_cursor = range.start < traversed_bytes; (b736ef8) *)
         do '(tb, tc) <- md_advance bs tb tc rs;
         let cu := md_cu_top cu lastend in
-        if md_is_leaf ev && (tc <? cu) then                          (* `continue` of the guard *)
+        if md_is_leaf ev && (behind || (tc <? cu)) then              (* `continue` of the guard *)
           md_loop src bs rest tb tc cu lastend stack
         else
           do '(out, stack) <- md_event_step src bs rs stack tc ev;
